@@ -1080,6 +1080,7 @@ class Executor:
                     return
                 st.entered.add(key)
                 body, assigned = li
+                entry_vals = {loc: st.vals.get((fr, loc)) for loc in assigned}      # what the loop-carried locals hold on entry
                 for loc in sorted(assigned):
                     nm = func.debug.get(loc)
                     base = "%s#loop%d_%d%s" % (func.short, bbid, loc, ("=" + nm) if nm else "")
@@ -1098,7 +1099,7 @@ class Executor:
                     st.havocked.add((fr, loc))
                 st.heap = {}
                 st.epoch = next(self.sym_seq)
-                st.events.append(("loop", func.short, bbid, None))
+                st.events.append(("loop", func.short, bbid, entry_vals))
             ps, pt = stmts_of(blk)
             for s, raw in zip(ps, blk.stmts):
                 k = s[0]
@@ -1359,7 +1360,7 @@ class Executor:
                 work.append((ret, s2))
             return None
         # Result::or_else / unwrap_or_else with a closure at hand, Result::unwrap_or: Ok keeps the value, Err runs the alternative
-        mr = re.match(r"^(?:std::result::)?Result::<.*>::(or_else|unwrap_or_else|unwrap_or)(?:::<.*>)?$", STD_PREFIX.sub("", callee))
+        mr = re.match(r"^(?:std::result::)?Result::<.*>::(or_else|unwrap_or_else|unwrap_or|and_then|map)(?:::<.*>)?$", STD_PREFIX.sub("", callee))
         if mr and self.summaries and len(args) == 2 and ret is not None and self.emulate_result_alternatives:
             how = mr.group(1)
             cf = self.closure_target(args[1]) if how != "unwrap_or" else None
@@ -1371,6 +1372,31 @@ class Executor:
                     s2 = st.copy()
                     okb = (d[2] == want) if d[0] == "c" else s2.assume_eq(d, want)
                     if not okb:
+                        continue
+                    if how in ("and_then", "map"):
+                        # Err stays the error; Ok(v): the closure runs on v (map wraps its answer in Ok again)
+                        if want == 1:
+                            if dest is not None:
+                                self.write_placekey(s2, (fr, func, dest[1], dest[2]), x)
+                            work.append((ret, s2))
+                            continue
+                        okv = proj(proj(x, ("v", "Ok"), self.enums), ("f", 0), self.enums)
+                        clo = args[1]
+                        carg = ("addr", clo) if cf.args[0][1].strip().startswith("&") else clo
+                        fr2 = next(self.frame_seq)
+                        self._inline_stack.append(cf)
+                        try:
+                            sub = self.run(cf, [carg, okv], s2, fr2, depth + 1, _count=False)
+                        finally:
+                            self._inline_stack.pop()
+                        for o in sub:
+                            if o.kind != "return":
+                                outs.append(o)
+                                continue
+                            rv = o.ret if how == "and_then" else ("variant", "Result", "Ok", (o.ret,))
+                            if dest is not None:
+                                self.write_placekey(o.state, (fr, func, dest[1], dest[2]), rv)
+                            work.append((ret, o.state))
                         continue
                     if want == 0:
                         v = x if how == "or_else" else proj(proj(x, ("v", "Ok"), self.enums), ("f", 0), self.enums)
